@@ -56,6 +56,10 @@ pub trait Subject {
     fn push(&mut self, _id: u32, _how: PushHow, _panicking: bool) -> PushRes {
         PushRes::Unsupported
     }
+    /// `Extend::extend` with the given children (ordered queues); None = not supported
+    fn extend(&mut self, _ids: &[u32]) -> Option<()> {
+        None
+    }
     fn obs(&self) -> Obs;
     fn relocate(self: Box<Self>) -> Box<dyn Subject>;
     fn seed(&mut self, _s: usize) {}
@@ -197,6 +201,11 @@ impl Subject for SFob {
     fn seed(&mut self, s: usize) {
         self.0.verif_seed_positions(s)
     }
+    fn extend(&mut self, ids: &[u32]) -> Option<()> {
+        let v: Vec<F> = ids.iter().map(|&i| F::new(i)).collect();
+        in_crate(|| self.0.extend(v));
+        Some(())
+    }
     relocate!();
 }
 
@@ -225,6 +234,11 @@ impl Subject for SFo {
     }
     fn seed(&mut self, s: usize) {
         self.0.verif_seed_positions(s)
+    }
+    fn extend(&mut self, ids: &[u32]) -> Option<()> {
+        let v: Vec<F> = ids.iter().map(|&i| F::new(i)).collect();
+        in_crate(|| self.0.extend(v));
+        Some(())
     }
     relocate!();
 }
